@@ -316,3 +316,144 @@ def R18b(text, cfg=None):
 
 
 RULES = {"R18b": R18b, "R2b": R2b, "R18": R18, "R20": R20, "R1": R1, "R2": R2, "R3": R3, "R4": R4, "R5": R5, "R7": R7, "R15": R15, "R16": R16}
+
+
+# ---------------------------------------------------------------------------------------------
+# R12 (general): iterator chains  SRC.iter()[.filter(|P| C)]*[.map(|P| F)](.collect() | .for_each(|P| B))
+# are rewritten to an explicit index loop over a snapshot of SRC; the closure patterns and bodies are copied
+# verbatim.  cfg['chains'] = { "<SRC expr>": { snap = "<snapshot call>", ... } }, sinks:
+#   let [mut] NAME: TYPE = CHAIN.collect();   ->  let mut NAME: TYPE = <new>; loop { .. <push NAME F> .. }
+#   Ok(CHAIN.collect())                        ->  { let mut out = <new>; loop ..; Ok(out) }
+#   CHAIN.for_each(|P| B);                     ->  loop { .. B .. }
+# new / push come from cfg['chains'][SRC]['new'] / ['push'] (push uses {name} and {x}).
+def _parse_chain(text, pos):
+    """text[pos:] starts right after `.iter()`; parse `.m(args)` calls. returns (calls, end)"""
+    calls = []
+    i = pos
+    while True:
+        m = re.compile(r"\s*\.\s*(" + ID + r")\s*\(").match(text, i)
+        if not m or m.group(1) not in ("filter", "map", "for_each", "collect", "filter_map"):
+            break
+        op = m.end() - 1
+        end = _balanced(text, op)
+        calls.append((m.group(1), text[op + 1:end - 1].strip()))
+        i = end
+        if m.group(1) in ("for_each", "collect"):
+            break
+    return calls, i
+
+
+def _closure(src):
+    m = re.match(r"\|\s*(.*?)\s*\|\s*(.*)$", src, re.S)
+    if not m:
+        return None
+    pat, body = m.group(1), m.group(2).strip()
+    return pat, body
+
+
+def R12chain(text, cfg=None):
+    inst = []
+    chains = (cfg or {}).get("chains", {})
+    for src, c in chains.items():
+        rx = re.compile(re.escape(src).replace(r"\ ", r"\s*") + r"\s*\.\s*(?:iter|into_iter|keys|values)\(\)")
+        pos = 0
+        n = 0
+        while True:
+            m = rx.search(text, pos)
+            if not m:
+                break
+            calls, end = _parse_chain(text, m.end())
+            if not calls or calls[-1][0] not in ("for_each", "collect"):
+                pos = m.end()
+                continue
+            n += 1
+            tag = c.get("tag", re.sub(r"\W", "", src)) + (str(n) if n > 1 else "")
+            ents = "ents_" + tag
+            idx = "idx_" + tag
+            body_open = ""
+            closes = 0
+            ok = True
+            for name, arg in calls[:-1]:
+                cl = _closure(arg)
+                if cl is None or name not in ("filter", "map"):
+                    ok = False
+                    break
+                pat, b = cl
+                if name == "filter":
+                    body_open += " let %s = %s[%s]; if %s {" % (pat, ents, idx, b)
+                    closes += 1
+                else:  # map: value of the chain becomes b
+                    body_open += " let %s = %s[%s]; let chain_val_%s = %s;" % (pat, ents, idx, tag, b)
+            if not ok:
+                pos = m.end()
+                continue
+            has_map = any(nm == "map" for nm, _ in calls[:-1])
+            last, larg = calls[-1]
+            start = m.start()
+            # statement context
+            pre = text[:start]
+            if last == "for_each":
+                cl = _closure(larg)
+                if cl is None:
+                    pos = m.end()
+                    continue
+                pat, b = cl
+                if b.startswith("{") and _balanced(b, 0) == len(b):
+                    b = b[1:-1]
+                inner = body_open + " let %s = %s[%s]; %s" % (pat, ents, idx, b) + " }" * closes
+                e2 = end
+                while e2 < len(text) and text[e2] in " \n\t":
+                    e2 += 1
+                if e2 < len(text) and text[e2] == ";":
+                    e2 += 1
+                snap_decl = "" if c.get("shared_snapshot") and n > 1 else "let %s = %s; " % (ents, c["snap"])
+                if c.get("shared_snapshot"):
+                    ents_name = "ents_" + c.get("tag", re.sub(r"\W", "", src))
+                    inner = inner.replace(ents, ents_name)
+                    snap_decl = "" if n > 1 else "let %s = %s; " % (ents_name, c["snap"])
+                    rep = "%sfor %s in 0..%s.len() {%s }" % (snap_decl, idx, ents_name, inner)
+                else:
+                    rep = "%sfor %s in 0..%s.len() {%s }" % (snap_decl, idx, ents, inner)
+                text = text[:start] + rep + text[e2:]
+                inst.append("R12: chain on `%s` ending in for_each -> explicit loop (closure bodies verbatim)" % src)
+                pos = start + len(rep)
+                continue
+            # collect
+            val = ("chain_val_" + tag) if has_map else None
+            if val is None:
+                pos = m.end()
+                continue
+            lm = re.search(r"let\s+(?:mut\s+)?(" + ID + r")\s*:\s*([^=;]+?)\s*=\s*$", pre)
+            om = re.search(r"Ok\s*\(\s*$", pre)
+            if lm:
+                name, ty = lm.group(1), lm.group(2)
+                e2 = end
+                while e2 < len(text) and text[e2] in " \n\t":
+                    e2 += 1
+                if e2 < len(text) and text[e2] == ";":
+                    e2 += 1
+                ents_name = ("ents_" + c.get("tag", re.sub(r"\W", "", src))) if c.get("shared_snapshot") else ents
+                loop_body = body_open.replace(ents, ents_name) + " " + c["push"].replace("{name}", name).replace("{x}", val) + " }" * closes
+                rep = "let mut %s: %s = %s; let %s = %s; for %s in 0..%s.len() {%s }" % (name, ty, c["new"], ents_name, c["snap"], idx, ents_name, loop_body)
+                text = text[:lm.start()] + rep + text[e2:]
+                inst.append("R12: `let %s = <chain on %s>.collect()` -> explicit loop (closure bodies verbatim)" % (name, src))
+                pos = lm.start() + len(rep)
+            elif om:
+                # Ok( CHAIN.collect() [,] )
+                e2 = end
+                while e2 < len(text) and text[e2] in " \n\t,":
+                    e2 += 1
+                if e2 < len(text) and text[e2] == ")":
+                    e2 += 1
+                name = "out_" + tag
+                loop_body = body_open + " " + c["push"].replace("{name}", name).replace("{x}", val) + " }" * closes
+                rep = "{ let mut %s = %s; let %s = %s; for %s in 0..%s.len() {%s } Ok(%s) }" % (name, c["new"], ents, c["snap"], idx, ents, loop_body, name)
+                text = text[:om.start()] + rep + text[e2:]
+                inst.append("R12: `Ok(<chain on %s>.collect())` -> explicit loop (closure bodies verbatim)" % src)
+                pos = om.start() + len(rep)
+            else:
+                pos = m.end()
+    return text, inst
+
+
+RULES["R12chain"] = R12chain
